@@ -268,6 +268,15 @@ def job_dr(ctx, iq, ia):
     conj = lambda q: q * np.array([1.0, -1.0, -1.0, -1.0])
     madg, mah, aqua, ekf, roleq = Madgwick(), Mahony(), AQUA(), EKF(), ROLEQ()
 
+    # the same step on objects with a history: a few ordinary (non-null) updates first, so that state carried by the object
+    # (e.g. Mahony's integrated gyro bias) is non-trivial when the null sample arrives
+    madg2, mah2, aqua2 = Madgwick(), Mahony(), AQUA()
+    gw, aw = np.array([0.3, -0.2, 0.1]), np.array([0.5, -0.3, 9.7])
+    for obj in (madg2, mah2, aqua2):
+        qw = np.array([1.0, 0.0, 0.0, 0.0])
+        for _ in range(8):
+            qw = _arr(obj.updateIMU(qw, gw.copy(), aw.copy()))
+
     def n_ekf(q, w, dt):
         r = _arr(ekf.f(q, w, dt))
         return r / np.sqrt((r * r).sum()) if r.shape == (4,) else r
@@ -276,6 +285,9 @@ def job_dr(ctx, iq, ia):
         ('Madgwick', 'Madgwick.updateIMU(q, w, acc=0, dt)', lambda q, w, dt: _arr(madg.updateIMU(q, w, Z.copy(), dt=dt))),
         ('Mahony', 'Mahony.updateIMU(q, w, acc=0, dt)', lambda q, w, dt: _arr(mah.updateIMU(q, w, Z.copy(), dt=dt))),
         ('AQUA', 'AQUA.updateIMU(q*, w, acc=0, dt)*', lambda q, w, dt: conj(_arr(aqua.updateIMU(conj(q), w, Z.copy(), dt=dt)))),
+        ('Madgwick[used]', 'Madgwick.updateIMU(q, w, acc=0, dt) on a used object', lambda q, w, dt: _arr(madg2.updateIMU(q, w, Z.copy(), dt=dt))),
+        ('Mahony[used]', 'Mahony.updateIMU(q, w, acc=0, dt) on a used object', lambda q, w, dt: _arr(mah2.updateIMU(q, w, Z.copy(), dt=dt))),
+        ('AQUA[used]', 'AQUA.updateIMU(q*, w, acc=0, dt)* on a used object', lambda q, w, dt: conj(_arr(aqua2.updateIMU(conj(q), w, Z.copy(), dt=dt)))),
         ('EKF.f', 'normalised EKF.f(q, w, dt)', n_ekf),
         ('ROLEQ', 'ROLEQ.attitude_propagation(q, w, dt)', lambda q, w, dt: _arr(roleq.attitude_propagation(q, w, dt))),
     ]
